@@ -21,6 +21,7 @@ PROPS = {
     "C01": ["contracts.c01_simplifier"],
     "C02": ["contracts.c01_simplifier", "contracts.c02_model"],
     "C03": ["contracts.c03_typechecker", "contracts.c06_constructors"],
+    "C05": ["contracts.c05_substitution"],
     "C06": ["contracts.c06_constructors"],
     "C12": ["contracts.c12_oracles"],
     "C13": ["contracts.c13_logics"],
